@@ -45,7 +45,7 @@ func genBase(r *Rng, prop string) *Scenario {
 		return genC06(r)
 	case "C07":
 		return genC07(r)
-	case "C11":
+	case "C11", "C16":
 		return genC11(r, prop)
 	case "C19":
 		if r.chance(0.4) {
